@@ -90,6 +90,17 @@ def A.owedFids (a : A) : List Fid := a.owed.map Prod.fst
 def A.discharge (a : A) (f : Fid) : A :=
   { a with owed := a.owed.filter (fun x => x.1 ≠ f), atBegin := a.atBegin.filter (· ≠ f), snap := a.snap.filter (· ≠ f) }
 
+/-- the outstanding requests that were already outstanding when the pass began have waited one more pass -/
+def A.aged (a : A) : List (Fid × Nat) :=
+  a.owed.map (fun (x : Fid × Nat) => if x.1 ∈ a.atBegin then (x.1, x.2 + 1) else x)
+
+/-- one more complete undisturbed pass began (and ended) with the requests in `atBegin` outstanding -/
+def A.ageOwed (a : A) : A :=
+  if a.disturbed then a else
+  match a.aged.find? (fun x => decide (x.2 ≥ a.nf)) with
+  | some x => { a with owed := a.aged }.flag (.starved x.1)
+  | none => { a with owed := a.aged }
+
 def A.step (a : A) : Obs → A
   | .accepted f => if f ∈ a.owedFids then a else { a with owed := a.owed ++ [(f, 0)] }
   | .rejected _ => a
@@ -110,16 +121,10 @@ def A.step (a : A) : Obs → A
   | .bodyReturned y => { a with snap := a.owedFids, yieldedNow := y }
   | .passEnd onTime =>
     -- requests that completed before the final check and are still outstanding at return
-    let pending := a.snap.any (fun f => decide (f ∈ a.owedFids))
     -- (while a sender on another thread sits between its claim and its send, later requests are hidden behind its
     --  unsent buffer: the property's interrupt clause speaks of handlers that run to completion)
-    let a1 := if (a.yieldedNow || (pending && !a.disturbed)) && !onTime then a.flag .oversleeps else a
-    if a1.disturbed then a1 else
-    -- one more complete pass began (and ended) with these requests outstanding
-    let owed' := a1.owed.map (fun x => if x.1 ∈ a1.atBegin then (x.1, x.2 + 1) else x)
-    match owed'.find? (fun x => decide (x.2 ≥ a1.nf)) with
-    | some x => { a1 with owed := owed' }.flag (.starved x.1)
-    | none => { a1 with owed := owed' }
+    A.ageOwed
+      (if (a.yieldedNow || (a.snap.any (fun f => decide (f ∈ a.owedFids)) && !a.disturbed)) && !onTime then a.flag .oversleeps else a)
   | .threadBegin => { a with threads := a.threads + 1, disturbed := true }
   | .threadEnd => { a with threads := a.threads - 1 }
 
